@@ -23,11 +23,22 @@ def make_recogniser(t, dflt):
     OLD_NAME = D + '.name'
     FILE_OLD = 'self.file_rules[%s]' % OLD_NAME
 
+    def canon(txt):
+        # the file rule recorded under the old name, however it is fetched
+        for a in ('self.file_rules.get(%s)' % OLD_NAME,
+                  'self.file_rules.get(%s, None)' % OLD_NAME):
+            txt = txt.replace(a, FILE_OLD)
+        return txt
+
     def rec(expr):
         x = t.expand(expr)
+        if U(x) == D:
+            return ('has_dep', True)
         if isinstance(x, ast.Compare) and len(x.ops) == 1:
-            l, r = U(x.left), U(x.comparators[0])
+            l, r = canon(U(x.left)), canon(U(x.comparators[0]))
             op = x.ops[0]
+            if isinstance(op, ast.Is) and r == 'None' and l == FILE_OLD:
+                return ('old_in_file', False)
             if isinstance(op, ast.Eq):
                 pair = {l, r}
                 if pair == {OLD_NAME, NEW_NAME}:
@@ -40,7 +51,7 @@ def make_recogniser(t, dflt):
                     pass
                 for a, b in ((x.left, x.comparators[0]),
                              (x.comparators[0], x.left)):
-                    if U(a) == 'str(%s.check)' % FILE_OLD:
+                    if canon(U(a)) == 'str(%s.check)' % FILE_OLD:
                         if is_alias_text(b, NEW_NAME):
                             return ('alias', True)
                 if pair == {FILE_OLD + '.check_str', D + '.check_str'}:
@@ -52,10 +63,13 @@ def make_recogniser(t, dflt):
                         return ('old_in_file', True)
                     if l == NEW_NAME:
                         return ('new_in_file', True)
-        txt = U(x)
+        txt = canon(U(x))
         if txt.endswith('.oslo_policy.enforce_new_defaults'):
             return ('enforce_new', True)
+        if txt == FILE_OLD:
+            return ('old_in_file', True)
         return None
+    rec.canon = canon
     return rec
 
 
@@ -84,7 +98,11 @@ def check_table(ctx):
     r = roles(ctx)
     f = r.deprecated
     dflt = f.params[1]
-    t = Table(prog, f)
+    from ..dte import inline_helpers
+    t = Table(prog, f, inline=inline_helpers(
+        prog, modules={POLICY}, exclude={r.load_rules.qual, r.loader.qual,
+                                         POLICY + '.Enforcer.check_rules'}),
+        max_depth=4)
     rec = make_recogniser(t, dflt)
     classes = G.check_classes(prog)
     W = ctx.where(f.module, f.node)
@@ -96,7 +114,7 @@ def check_table(ctx):
         if p.outcome.kind != 'return' or p.outcome.expr is None:
             return 'other:' + p.outcome.text()
         e = t.expand(p.outcome.expr)
-        txt = U(e)
+        txt = rec.canon(U(e))
         if txt == FILE_OLD + '.check':
             return 'file-old'
         if txt == dflt + '.check':
@@ -129,6 +147,11 @@ def check_table(ctx):
                 continue
             atom, val_when_true = a
             v = val_when_true if c.pol else (not val_when_true)
+            if atom == 'has_dep':
+                # the handler is only called for a default that has one
+                if not v:
+                    consistent = False
+                continue
             if atom in lits and lits[atom] != v:
                 consistent = False
             lits[atom] = v
